@@ -80,7 +80,9 @@ def deep(v):
     if isinstance(v, RMap):
         m = RMap(); m.l = [[deep(k), deep(x)] for k, x in v.l]; m.perm = None; return m          # a clone is a new table (its own order)
     if isinstance(v, RSet):
-        s = RSet(); s.l = [deep(x) for x in v.l]; return s
+        s = RSet(); s.l = [deep(x) for x in v.l]; s.sorted = getattr(v, 'sorted', False); return s
+    if isinstance(v, RIter):
+        it = RIter(v.l); it.i = v.i; it.attr_iter = v.attr_iter; return it          # cloning an iterator copies the cursor, not the items
     return v
 
 # ---------------------------------------------------------------------------------------------- string helpers
@@ -1080,19 +1082,27 @@ BUILTIN_FNS = {
     ('RefCell', 'new'): lambda m, v: RStruct('RefCell', {'v': v}), ('Cell', 'new'): lambda m, v: RStruct('RefCell', {'v': v}),
 }
 def _position(m, it, f):
-    for i, x in enumerate(it.l[it.i:]):
+    start = it.i
+    for i, x in enumerate(it.l[start:]):
+        it.i = start + i + 1
         if m.branch(m.call_value(f, [x])): return Some(i)
     return NONE()
 def _find(m, it, f):
-    for x in it.l[it.i:]:
+    start = it.i
+    for i, x in enumerate(it.l[start:]):
+        it.i = start + i + 1
         if m.branch(m.call_value(f, [x])): return Some(x)
     return NONE()
 def _any(m, it, f):
-    for x in it.l[it.i:]:
+    start = it.i
+    for i, x in enumerate(it.l[start:]):
+        it.i = start + i + 1
         if m.branch(m.call_value(f, [x])): return True
     return False
 def _all(m, it, f):
-    for x in it.l[it.i:]:
+    start = it.i
+    for i, x in enumerate(it.l[start:]):
+        it.i = start + i + 1
         if not m.branch(m.call_value(f, [x])): return False
     return True
 def _filter(m, it, f): return RIter([x for x in it.l[it.i:] if m.branch(m.call_value(f, [x]))])
@@ -1150,6 +1160,13 @@ def _set_insert(m, st, x):
     st.l.append(x); return True
 def _collect(m, it, turbofish=None):
     items = it.l[it.i:]
+    if turbofish and ('BTreeMap' in turbofish or 'BTreeSet' in turbofish):
+        c = _btree(RMap() if 'BTreeMap' in turbofish else RSet())
+        for x in items:
+            if 'BTreeMap' in turbofish: _map_insert(m, c, x.l[0], x.l[1])
+            else: _set_insert(m, c, x)
+        return c
+    if turbofish and 'VecDeque' in turbofish: return RVec(list(items))
     if turbofish and 'HashSet' in turbofish:
         st = RSet()
         for x in items: _set_insert(m, st, x)
@@ -1310,6 +1327,13 @@ def _trim_matches(v, p, start, end):
     if end:
         while v.endswith(p): v = v[:len(v) - len(p)]
     return v
+def _map_while(m, it, f):
+    out = []
+    for x in it.l[it.i:]:
+        r = m.call_value(f, [x])
+        if r.variant != 'Some': break
+        out.append(r.p[0])
+    return RIter(out)
 def _dedup(m, v):
     out = []
     for x in v.l:
@@ -1464,6 +1488,14 @@ BUILTIN_METHODS = {
     ('RVec', 'windows'): lambda m, v, n: RIter([RVec(v.l[i:i + n]) for i in range(0, len(v.l) - n + 1)]), ('RVec', 'chunks'): lambda m, v, n: RIter([RVec(v.l[i:i + n]) for i in range(0, len(v.l), n)]),
     ('RVec', 'concat'): lambda m, v: RVec([y for x in v.l for y in x.l]) if all(isinstance(x, RVec) for x in v.l) else RStr(s_norm([p for x in v.l for p in s_parts(x.val)])),
     ('RVec', 'starts_with'): lambda m, v, o: len(o.l) <= len(v.l) and m.all_eq(v.l[:len(o.l)], o.l), ('RVec', 'ends_with'): lambda m, v, o: len(o.l) <= len(v.l) and m.all_eq(v.l[len(v.l) - len(o.l):], o.l),
+    ('RVec', 'sort_by_cached_key'): _sort_by_key, ('RVec', 'split_last'): lambda m, v: Some(RTuple([v.l[-1], RVec(v.l[:-1])])) if v.l else NONE(),
+    ('RVec', 'split_first'): lambda m, v: Some(RTuple([v.l[0], RVec(v.l[1:])])) if v.l else NONE(), ('RVec', 'rotate_left'): lambda m, v, n: (v.l.__setitem__(slice(None), v.l[n:] + v.l[:n]), UNIT)[1],
+    ('RVec', 'rotate_right'): lambda m, v, n: (v.l.__setitem__(slice(None), v.l[len(v.l) - n:] + v.l[:len(v.l) - n]) if v.l else None, UNIT)[1],
+    ('RVec', 'iter_rev'): lambda m, v: RIter(reversed(v.l)),
+    ('RMap', 'into_values'): lambda m, mp: RIter([t.l[1] for t in _map_iter(m, mp).l]), ('RMap', 'into_keys'): lambda m, mp: RIter([t.l[0] for t in _map_iter(m, mp).l]),
+    ('RMap', 'first_key_value'): lambda m, mp: (lambda it: Some(it.l[0]) if it.l else NONE())(_map_iter(m, mp)), ('RMap', 'last_key_value'): lambda m, mp: (lambda it: Some(it.l[-1]) if it.l else NONE())(_map_iter(m, mp)),
+    ('RMap', 'extend'): lambda m, mp, o: ([_map_insert(m, mp, t.l[0], t.l[1]) for t in m.iterate(o)], UNIT)[1],
+    ('RIter', 'map_while'): lambda m, it, f: _map_while(m, it, f), ('RIter', 'scan'): lambda m, it, init, f: (_ for _ in ()).throw(Unsupported('scan')),
     ('RVec', 'dedup'): _dedup, ('RVec', 'retain'): _retain, ('RVec', 'truncate'): _truncate, ('RVec', 'swap'): _swap,
     ('RVec', 'extend_from_slice'): lambda m, v, o: (v.l.extend(deep(x) for x in o.l), UNIT)[1],
     ('RVec', 'first_mut'): lambda m, v: Some(v.l[0]) if v.l else NONE(), ('RVec', 'last_mut'): lambda m, v: Some(v.l[-1]) if v.l else NONE(),
